@@ -353,7 +353,7 @@ func (p *Prog) mapTableOf(g *ssa.Global, f *types.Var) mapTable {
 					t.Escapes = append(t.Escapes, in)
 				}
 			case *ssa.Return:
-				for _, r := range x.Results {
+				for _, r := range returnedValues(x) {
 					if isRef(r) {
 						t.Escapes = append(t.Escapes, in)
 					}
